@@ -378,6 +378,8 @@ def rule_wouldblock_deref(ctx, rep):
     pat.require(n >= 4, "only %d WOULDBLOCK tests found" % n)
 
 
+META["explanation"] += " " + 'Also (round 14): no pure / const attribute on the queue / stack / hash-table prototypes.'
+
 RULES = [
     ("C17.proto", lambda c, r: __import__("sa.attrs", fromlist=["x"]).rule_nopure(c, r, "C17.proto", '^_*cds_(wfs|lfs|wfcq|wfq|lfq|lfht)_', "queue / stack / hash-table", 60)),   # compiler-visible contract of the public prototypes: pure / const would let an optimised caller poll once
     ("C17.helping", rule_helping),
